@@ -307,6 +307,11 @@ package transaction
 //@   opaque-callee reset
 //@   ensures left: txn.aggressiveLockingContext == nil
 //@   ensures issued: txn.rbIssued >= old(txn.rbIssued) && (old(len(txn.aggressiveLockingContext.lastRetryUnnecessaryLocks)) != 0 ==> txn.rbIssued > old(txn.rbIssued))
+// ... and hands every lock of the current attempt over to the buffer: its key carries the "locked" flag afterwards (which is
+// what an explicit Rollback later collects).
+//@   loop 1 invariant handed: forall k string :: seen(k) ==> unionstore.lockedIn(memBuffer.fver, k)
+//@   loop 1 invariant same: txn.aggressiveLockingContext == old(txn.aggressiveLockingContext) && txn.aggressiveLockingContext != nil && txn.aggressiveLockingContext.currentLockedKeys == old(txn.aggressiveLockingContext.currentLockedKeys)
+//@   at return assert handed: forall k string :: old(inDom(txn.aggressiveLockingContext.currentLockedKeys, k)) ==> unionstore.lockedIn(memBuffer.fver, k)
 
 //@ func (*KVTxn) exitAggressiveLockingIfInapplicable
 //@   prop C06
@@ -348,6 +353,10 @@ package transaction
 //@   opaque-callee asyncPessimisticRollback resetPrimary pessimisticLockMutations newTwoPhaseCommitter initKeysAndMutations hashInKeys selectPrimaryForPessimisticLock resetTTLManagerForAggressiveLockingMode filterAggressiveLockedKeys collectAggressiveLockingStats
 //@   requires nodebt: !lockCtx.debt
 //@   at return assert rolledback: lockCtx.debt ==> txn.rbIssued > old(txn.rbIssued)
+// every key the call locked (outside aggressive locking, where DoneAggressiveLocking does it later, and outside lock-only-if-exists,
+// which skips absent keys) is flagged "locked" in the buffer - which is what an explicit Rollback later collects
+//@   loop 5 invariant idx: -1 <= rangeindex && rangeindex < len(keys)
+//@   loop 5 invariant flagged: forall i int :: 0 <= i && i <= rangeindex ==> unionstore.lockedIn(memBuf.fver, keys[i]) || txn.aggressiveLockingContext != nil || lockCtx.LockOnlyIfExists
 //@   at call(asyncPessimisticRollback) assert whole: arg_keys == allKeys && arg_specifiedForUpdateTS >= lockCtx.ForUpdateTS && arg_specifiedForUpdateTS >= lockCtx.MaxLockedWithConflictTS && err != nil
 
 // ---- C06: pessimistic rollback requests really reach the store -----------------------------------------------------------
